@@ -60,6 +60,22 @@ func adsOwner(raw json.RawMessage) interface{} {
 	if err := json.Unmarshal(raw, &a); err != nil {
 		panic(err)
 	}
+	if a.Variant == "close-at-sibling" {
+		// the close has to land while a sibling service's advertisement is being sent and this service's own is still to
+		// come; the order of a round follows map iteration: try until it falls that way
+		var last interface{}
+		for i := 0; i < 16; i++ {
+			inner := a
+			inner.Variant = "close-at-sibling-once"
+			inner.Other = true
+			b, _ := json.Marshal(inner)
+			last = adsOwner(b)
+			if m, ok := last.(map[string]interface{}); ok && m["fired"] == true {
+				return last
+			}
+		}
+		return last
+	}
 	svc := string(verifUnhex(a.Svc))
 	s, cancel := verifQuietNode("verif-owner", 30)
 	defer cancel()
@@ -92,8 +108,20 @@ func adsOwner(raw json.RawMessage) interface{} {
 		return adsOwnerObserve(ch, svc, fired)
 	}
 	fired := false
+	sawOwn := false
 	logger.RegisterLogger(func(level int, format string, v ...interface{}) {
 		if fired || !strings.HasPrefix(format, "Sending service advertisement") || len(v) == 0 {
+			return
+		}
+		if a.Variant == "close-at-sibling-once" {
+			if si, ok := v[0].(*ServiceAdvertisement); ok {
+				if si.Service == svc {
+					sawOwn = true
+				} else if !sawOwn {
+					fired = true
+					_ = pc.Close()
+				}
+			}
 			return
 		}
 		if si, ok := v[0].(*ServiceAdvertisement); ok && si.Service == svc {
@@ -284,6 +312,7 @@ func adsGenAll(v *verifRun) {
 	}
 	for i := 0; i < 2; i++ {
 		v.do(adsApply, "owner", adsOwnerArgs{Svc: verifHex([]byte("sa")), Other: i == 1, Variant: "round-before-close-lock"})
+		v.do(adsApply, "owner", adsOwnerArgs{Svc: verifHex([]byte("sa")), Other: true, Variant: "close-at-sibling"})
 	}
 }
 
